@@ -109,6 +109,26 @@ Theorem C10_max_step_exact_partial : forall (E : env),
 Proof. exact max_step_exact. Qed.
 Print Assumptions C10_max_step_exact_partial.
 
+(* max_step = 0 is a bound like any other (not "no max_step"): such a knob is not moved by a
+   Jacobian step - the magnitude of its step is not positive *)
+Theorem C10_max_step_zero_partial : forall (E : env),
+  (forall a, e_ltb E a a = false) ->
+  (forall l o, e_ltb E l (e_abs E o) = true -> e_ltb E l (e_zero E) = false ->
+               e_abs E (e_mul E o (e_div E l (e_abs E o))) = l) ->
+  (forall l x o l', e_ltb E l x = true -> e_ltb E l (e_zero E) = false -> e_ltb E l' (e_abs E o) = false ->
+                    e_ltb E l' (e_abs E (e_mul E o (e_div E l x))) = false) ->
+  forall (cf : cfg (eF E)) xstep,
+  (forall i mx w, nth_error (c_maxstep cf) i = Some (Some mx) -> nth_error (c_w cf) i = Some w ->
+                  e_ltb E (e_div E mx w) (e_zero E) = false) ->
+  forall i w o, nth_error (c_maxstep cf) i = Some (Some (e_zero E)) -> nth_error (c_w cf) i = Some w ->
+    e_div E (e_zero E) w = e_zero E ->
+    nth_error (clip_to_max_steps E cf xstep) i = Some o -> e_ltb E (e_zero E) (e_abs E o) = false.
+Proof.
+  intros E H1 H2 H3 cf xstep Hnn i w o Hm Hw Hd Ho.
+  pose proof (max_step_exact E H1 H2 H3 cf xstep Hnn i (e_zero E) w o Hm Hw Ho) as H. rewrite Hd in H. exact H.
+Qed.
+Print Assumptions C10_max_step_zero_partial.
+
 (* the three exact-arithmetic facts hold in an ordered field (the rationals) *)
 Example C10_max_step_hypotheses_satisfiable :
   (forall a, e_ltb qenv a a = false) /\
@@ -122,9 +142,16 @@ Print Assumptions C10_max_step_hypotheses_satisfiable.
 (* the case of the defect report: max_step = (1, 5), raw step (10, 10) *)
 Example C10_max_step_example :
   map this (clip_to_max_steps qenv (mkCfg [1%Qc; 1%Qc] [None; None] [1%Qc; 1%Qc] [Some 1%Qc; Some (Q2Qc 5)]
-                                          [] [] [] [] [] [] 1 true true true []) [Q2Qc 10; Q2Qc 10]) = [1%Q; 1%Q].
+                                          [] [] [] [] [] [] 1 true true true [] []) [Q2Qc 10; Q2Qc 10]) = [1%Q; 1%Q].
 Proof. vm_compute. reflexivity. Qed.
 Print Assumptions C10_max_step_example.
+
+(* max_step = (0, None): the whole step is scaled to zero *)
+Example C10_max_step_zero_example :
+  map this (clip_to_max_steps qenv (mkCfg [1%Qc; 1%Qc] [None; None] [1%Qc; 1%Qc] [Some 0%Qc; None]
+                                          [] [] [] [] [] [] 1 true true true [] []) [Q2Qc 10; Q2Qc 7]) = [0%Q; 0%Q].
+Proof. vm_compute. reflexivity. Qed.
+Print Assumptions C10_max_step_zero_example.
 
 (* ---- disabled knobs ------------------------------------------------------------------- *)
 (* a knob that is disabled while step() runs (persistently or by the call's own
@@ -214,7 +241,7 @@ Definition xenv : env :=
 (* one knob limited below only, limits = (-3, None), with max_step 1/2, two targets *)
 Definition xcfg : cfg Qc :=
   mkCfg [1%Qc] [Some (Some (Q2Qc (-3)), None)] [1%Qc] [Some (Q2Qc (1 # 2))] [0%N] [0%N]
-        [Q2Qc 2; Q2Qc 2] [Q2Qc (1 # 10); Q2Qc (1 # 10)] [1%Qc; 1%Qc] [0%N; 0%N] 3 true true true [].
+        [Q2Qc 2; Q2Qc 2] [Q2Qc (1 # 10); Q2Qc (1 # 10)] [1%Qc; 1%Qc] [0%N; 0%N] 3 true true true [] [].
 
 Example C10_unit_laws_satisfiable : unit_laws xenv xcfg.
 Proof.
